@@ -123,7 +123,7 @@ WsSites(L) == IF ElementOnly(L) THEN {j \in 2..Len(L) : TRUE} ELSE {}
 \* (a comment is inserted between two characters, never inside a multi-byte character)
 TextSites(L) == {j \in 1..Len(L) : L[j][1] = "Text" /\ Len(L[j][2]) >= 2 /\ CutAt(L[j][2], Len(L[j][2]) \div 2) >= 1}
 \* unknown children may be added only to element-only content of a struct that ignores unknown fields
-UnkChildOk(tyn) == tyn \in {"F02", "F03", "F05", "F11", "F18", "F19", "F20", "F22", "F23", "F29"}
+UnkChildOk(tyn) == tyn \in {"F02", "F03", "F05", "F11", "F18", "F19", "F20", "F22", "F23", "F29", "F32"}
 
 \* every single rewrite of the listed kinds
 Rewrites(L, tyn) ==
@@ -158,7 +158,9 @@ InvisibleToEvents(st) == ~st.unkAttr /\ ~st.unkFirst /\ ~st.unkLast
 \* ---------------------------------------------------------------- interleavings
 \* children of the root element of a logical document, as [name, lo, hi] index ranges into L
 \* list fields of the element named nm at nesting depth d (0 = root) of family type tyn
-ListFields(tyn) == IF tyn = "F22" THEN {n_a, n_b} ELSE IF tyn = "F23" THEN {n_a, n_b, n_d} ELSE IF tyn = "F26" THEN {n_a, n_b} ELSE IF tyn = "F29" THEN {n_a, n_b, n_d} ELSE {}
+ListFields(tyn) == IF tyn = "F22" THEN {n_a, n_b} ELSE IF tyn = "F23" THEN {n_a, n_b, n_d} ELSE IF tyn = "F26" THEN {n_a, n_b} ELSE IF tyn = "F29" THEN {n_a, n_b, n_d} ELSE IF tyn = "F33" THEN {n_a, n_b} ELSE {}
+\* nesting depth of the struct whose children are interleaved (0 = the root element)
+StructDepth(tyn) == IF tyn = "F33" THEN 1 ELSE 0
 InnerLists(tyn, nm) == IF tyn = "F26" /\ nm = n_a THEN {n_a, n_b} ELSE IF tyn = "F23" /\ nm = n_b THEN {n_a} ELSE IF tyn = "F29" /\ nm = n_b THEN {n_b} ELSE {}
 RECURSIVE ChildrenIn(_, _, _, _)
 ChildrenIn(L, j, stop, tyn) ==      \* children whose Start is at index j.. below index stop (the parent's End)
@@ -172,7 +174,7 @@ ChildrenIn(L, j, stop, tyn) ==      \* children whose Start is at index j.. belo
              inl == InnerLists(tyn, L[j][2]) IN
          <<[name |-> L[j][2], lo |-> j, hi |-> e, size |-> e - j + 1,
             inner |-> IF inl = {} THEN 0 ELSE Held(ChildrenIn(L, j + 1, e, "-"), inl)]>> \o ChildrenIn(L, e + 1, stop, tyn)
-ChildrenOf(L, tyn) == ChildrenIn(L, 2, Len(L), tyn)
+ChildrenOf(L, tyn) == ChildrenIn(L, 2 + StructDepth(tyn), Len(L) - StructDepth(tyn), tyn)
 \* all interleavings that keep the relative order within each name
 RECURSIVE Inter(_)
 Inter(cs) ==
@@ -181,7 +183,7 @@ Inter(cs) ==
              firstOf(nm) == CHOOSE i \in 1..Len(cs) : cs[i].name = nm /\ \A j \in 1..(i - 1) : cs[j].name # nm
              without(i) == SubSeq(cs, 1, i - 1) \o SubSeq(cs, i + 1, Len(cs)) IN
          UNION {{<<cs[firstOf(nm)]>> \o r : r \in Inter(without(firstOf(nm)))} : nm \in names}
-Reassemble(L, order) == <<L[1]>> \o Flatten([i \in 1..Len(order) |-> SubSeq(L, order[i].lo, order[i].hi)]) \o <<L[Len(L)]>>
+Reassemble(L, order, tyn) == SubSeq(L, 1, 1 + StructDepth(tyn)) \o Flatten([i \in 1..Len(order) |-> SubSeq(L, order[i].lo, order[i].hi)]) \o SubSeq(L, Len(L) - StructDepth(tyn), Len(L))
 ---------------------------------------------------------------------------
 VARIABLES ty, v, doc, toks, phase
 dvars == <<ty, v, doc, toks, phase>>
@@ -216,13 +218,23 @@ Inv_Rewrite ==
 \* and the base document reads back as the value's logical tree
 Inv_BaseReadsBack == (Mode = "rewrite" /\ phase = 1) => NormEmpty(ReadBack(Base)) = Tree
 
+\* An absent optional field may also be PRESENT in the document as an element marked xsi:nil="true" (whatever it contains):
+\* for F32 values without `o` the interleaved children include <o xsi:nil="true"><x/>t</o>, the prefix bound on the root.
+XSI == <<104,116,116,112,58,47,47,119,119,119,46,119,51,46,111,114,103,47,50,48,48,49,47,88,77,76,83,99,104,101,109,97,45,105,110,115,116,97,110,99,101>>
+NilChild == << <<"Start", <<111>>, << << <<120,115,105,58,110,105,108>>, <<116,114,117,101>> >> >> >>, <<"Start", <<120>>, <<>>>>, <<"End", <<120>>, <<>>>>,
+               <<"Text", <<116>>, <<>>>>, <<"End", <<111>>, <<>>>> >>
+\* (the prefix is bound on an ANCESTOR of the struct element - F33 wraps the struct in <w> - because the deserializer resolves
+\* the prefix of a replayed start tag in the scope of the reader's current position; see DESIGN 7.4)
+WithNil(T) == << <<"Start", T[1][2], Append(T[1][3], << <<120,109,108,110,115,58,120,115,105>>, XSI >>)>> >> \o SubSeq(T, 2, Len(T) - 2) \o NilChild \o SubSeq(T, Len(T) - 1, Len(T))
+TreeI == IF Mode = "interleave" /\ phase = 1 /\ ty = "F33" /\ "z" \in DOMAIN v.o[1][2].o[3][2] THEN WithNil(Tree) ELSE Tree
+
 \* C20: interleavings keep the multiset of children and the order within each name
 Inv_Inter ==
     (Mode = "interleave" /\ phase = 1) =>
-        \A o \in Inter(ChildrenOf(Tree, ty)) :
-            /\ Len(o) = Len(ChildrenOf(Tree, ty))
-            /\ \A nm \in {c.name : c \in {ChildrenOf(Tree, ty)[i] : i \in 1..Len(ChildrenOf(Tree, ty))}} :
-                  SelectSeq(o, LAMBDA c : c.name = nm) = SelectSeq(ChildrenOf(Tree, ty), LAMBDA c : c.name = nm)
+        \A o \in Inter(ChildrenOf(TreeI, ty)) :
+            /\ Len(o) = Len(ChildrenOf(TreeI, ty))
+            /\ \A nm \in {c.name : c \in {ChildrenOf(TreeI, ty)[i] : i \in 1..Len(ChildrenOf(TreeI, ty))}} :
+                  SelectSeq(o, LAMBDA c : c.name = nm) = SelectSeq(ChildrenOf(TreeI, ty), LAMBDA c : c.name = nm)
             /\ Held(o, ListFields(ty)) <= SumSizes(o)
 
 Inv_Emit ==
@@ -234,6 +246,6 @@ Inv_Emit ==
                                            udocs |-> {RenderDoc(Tree, st) : st \in {x \in Rewrites(Tree, ty) \cup Combos(Tree, ty) : ~InvisibleToEvents(x)}}])>>)
           [] Mode = "interleave" /\ phase = 1 ->
                 PrintT(<<"REPLAY", ToJson([ty |-> ty, v |-> v,
-                                           cases |-> {<<RenderDoc(Reassemble(Tree, o), BaseStyle), Held(o, ListFields(ty)), SumSizes(o)>> : o \in Inter(ChildrenOf(Tree, ty))}])>>)
+                                           cases |-> {<<RenderDoc(Reassemble(TreeI, o, ty), BaseStyle), Held(o, ListFields(ty)), SumSizes(o)>> : o \in Inter(ChildrenOf(TreeI, ty))}])>>)
           [] OTHER -> TRUE
 =============================================================================
